@@ -24,6 +24,8 @@ def main(tier, seed, replay):
         k.validate_profile("vis_white", 150, extra_monitors=VM, extra_fields=VF)
         k.validate_profile("rel_vis", 100, extra_monitors=VM, extra_fields=VF, known=("F20", "F17"))
         k.validate_profile("kf_f20", 1, known=("F20",))
+        for pol in ("black", "white"):
+            k.replay_behaviours(f"TLC_walks_{pol}", mc_consts(policy=pol, kinds=("spawn", "despawn", "setvis", "mutate", "insert", "remove"), ents=("e1", "e2"), clients=("c1", "c2"), ops=8, ticks=6, idle=3, cframes=8), 100, depth=80, extra_monitors=VM, extra_fields=VF)
     else:
         for pol in ("black", "white"):
             k.model_check(f"MC_Vis_{pol}", mc_consts(policy=pol, ops=4, **vis), inv, timeout=3000)
@@ -36,6 +38,8 @@ def main(tier, seed, replay):
         k.validate_profile("vis_white", 3000, extra_monitors=VM, extra_fields=VF)
         k.validate_profile("rel_vis", 1500, extra_monitors=VM, extra_fields=VF, known=("F20", "F17"))
         k.validate_profile("kf_f20", 1, known=("F20",))
+        for pol in ("black", "white"):
+            k.replay_behaviours(f"TLC_walks_{pol}", mc_consts(policy=pol, kinds=("spawn", "despawn", "setvis", "mutate", "insert", "remove"), ents=("e1", "e2"), clients=("c1", "c2"), ops=8, ticks=6, idle=3, cframes=8), 1500, depth=80, extra_monitors=VM, extra_fields=VF)
     k.selftest(tr)
     return k.finish(assumptions=[
         "the visible set of a tick is recomputed by the validator from the recorded ClientVisibility state; messages are decoded by the harness's own wire decoder",
